@@ -44,6 +44,9 @@ def series(a, dt):
         s = eqsig.AccSignal(af[::-1] * 1.3 + 0.2, dt)
         for f in fns.values():
             f(s)
+        with warnings.catch_warnings():
+            warnings.simplefilter("ignore")
+            s.generate_cumulative_stats()          # the deprecated object-level entry point, on the EARLIER record
         s.reset_values(a)
     else:
         s = eqsig.AccSignal(a, dt)
@@ -55,6 +58,12 @@ def series(a, dt):
         out[m] = np.array(fns[m](s))
     if k % 2:
         out["iv"] = np.array(im.calc_cumulative_abs_displacement(s))
+    if k % 3 != 1:
+        # the deprecated object-level entry point: the series it leaves on the object are the ones validated
+        with warnings.catch_warnings():
+            warnings.simplefilter("ignore")
+            s.generate_cumulative_stats()
+        out["arias"], out["cav"] = np.array(s.arias_intensity_series), np.array(s.cav_series)
     return out
 
 
@@ -99,10 +108,21 @@ def build_traces(path, tier, seed):
 
     nser0 = nser
     nser += 14 if tier == "quick" else 80
+    nser1 = nser
+    nser += 8 if tier == "quick" else 40
     for i in range(nser):
         n = gen.length(rng, 2, nmax)
         a, shape = gen.record(rng, n)
-        if i >= nser0:
+        if i >= nser1:
+            # counts in a narrow integer dtype whose running sums / neighbour sums stay inside it only if accumulated in
+            # floating point: int8 up to 60, int16 up to 15000, int32 up to 1e9, uint8 up to 120
+            n = int(rng.integers(20, 400))
+            a, shape = gen.record(rng, n, shape="noise" if rng.integers(2) else None)
+            dt_, top = [(np.int8, 60), (np.int16, 15000), (np.int32, 1.0e9), (np.uint8, 120)][(i - nser1) % 4]
+            a = np.abs(a) if dt_ is np.uint8 else np.asarray(a, dtype=float)
+            a = np.round(a / (np.max(np.abs(a)) + 1e-300) * top).astype(dt_)
+            shape += " (%s counts)" % np.dtype(dt_).name
+        elif i >= nser0:
             # strong head, then a coda whose squares are about one ulp of the running sum (slowly varying shapes): the sums
             # hardly move any more and exact monotonicity is at stake
             m = int(rng.integers(100, 400))
@@ -119,9 +139,9 @@ def build_traces(path, tier, seed):
             a[k:] *= 10.0 ** rng.uniform(-12, -6) * np.exp(-np.arange(n - k) / max(1.0, (n - k) / 6.0))
             a[0] = float(rng.choice([0.7, -1.3, 2.0]))
             shape = "strong start, weak coda"
-        if i % 6 == 0 and "coda" not in shape:
+        if i % 6 == 0 and "coda" not in shape and "counts" not in shape:
             a = np.round(a * 3).astype(np.int64)          # integer dtype record
-        elif i % 6 == 1:
+        elif i % 6 == 1 and "counts" not in shape:
             a = [float(x) for x in a]                     # list input
         dt = gen.dt(rng)
         ser = series(a, dt)
